@@ -10,7 +10,7 @@ vars == <<l, caseN, obs>>
 Ops(o) ==
   << <<"C18_NoPanic", C18_NoPanic(o)>>, <<"C18_ServeReturnsClosed", C18_ServeReturnsClosed(o)>>,
      <<"C18_CallbacksExact", C18_CallbacksExact(o)>>, <<"C18_AllFinished", C18_AllFinished(o)>>,
-     <<"C18_NoLeak", C18_NoLeak(o)>> >>
+     <<"C18_NoLeak", C18_NoLeak(o)>>, <<"X18_NoStranded", X18_NoStranded(o)>> >>
 Report(n, o) ==
   LET ops == Ops(o)
   IN \A i \in 1 .. Len(ops) : ops[i][2] \/ PrintT(<<"BAD", n, ops[i][1]>>)
